@@ -41,7 +41,7 @@ theorem mudlibConnect_cstep (S : Scripts) (w : W) : CStep w (mudlibConnect S w).
 
 theorem logonHook_step (rh : HookFn) (hrh : HookOK rh) (w : W) (u : Oid) : Step w (logonHook rh w u).1 := by
   unfold logonHook
-  exact Step.trans (Step.trans (emit_same _ _).step (addOut_step _ _ _)) (hrh _ _ _)
+  exact Step.bracket (Step.trans (Step.trans (emit_same _ _).step (addOut_step _ _ _)) (hrh _ _ _))
 
 theorem afterConnect_cstep (S : Scripts) (rh : HookFn) (hrh : HookOK rh) (w : W) :
     CStep w (afterConnect S rh w).1 := by
@@ -95,6 +95,13 @@ theorem ioEvent_cstep (S : Scripts) (rh : HookFn) (hrh : HookOK rh) (w : W) (e :
       · exact CStep.refl w
       · exact Step.toC (userData_step _ _ _ _)
   | eof client =>
+    simp only [ioEvent]
+    split
+    · exact CStep.refl w
+    · split
+      · exact CStep.refl w
+      · exact Step.toC (removeInteractive_step rh hrh _ _ _)
+  | hup client =>
     simp only [ioEvent]
     split
     · exact CStep.refl w
